@@ -83,7 +83,7 @@ def pEncode : P String := do
   | .ok o =>
     if doWeights ∧ keys.length ≠ subs.length then pure s!"err:oracle-count {keys.length}" else
     let rs := o.ranges.map fun r =>
-      s!"{r.core} {r.depth} {r.offset} {r.scaleBytes} {r.weightOffset} {r.weightBytes} {r.index} {r.weightCh.length} {r.cbd}"
+      s!"{r.core} {r.depth} {r.offset} {r.scaleBytes} {r.weightOffset} {r.weightBytes} {r.index} {r.weightCh.length} {if doWeights then r.cbd else 0}"
     pure (s!"ok {hexOut o.stream} {o.dbs.1} {o.dbs.2} {o.ranges.length} " ++ " ".intercalate rs)
 
 /-! #### wl_prep -/
